@@ -63,8 +63,13 @@ def build_text(sc):
     elif sc["wrap"]:
         per = sc.get("per_line", 5)
         for i in range(r):
-            lines.append(" " + fmt % tag(i, 0))
-            rest = [fmt % tag(i, j) for j in range(1, c)]
+            if sc.get("wrap_hyphen"):
+                # an ISO date as index and negative values everywhere else: every physical line holds a hyphen
+                lines.append(" 2018-01-%02d" % (i % 28 + 1))
+                rest = ["-" + fmt % tag(i, j) for j in range(1, c)]
+            else:
+                lines.append(" " + fmt % tag(i, 0))
+                rest = [fmt % tag(i, j) for j in range(1, c)]
             for k in range(0, len(rest), per):
                 lines.append(" " + " ".join(rest[k:k + per]))
     else:
@@ -115,7 +120,7 @@ class C07(Prop):
             c = g.randint(3, 10)
             d = c
             per = g.choice([k for k in (2, 3, 4, 5, 7) if (c - 1) % k != 0 or (c - 1) // k != 1 or True])
-            sc = {"declared": d, "cols": c, "rows": r, "wrap": True, "per_line": per}
+            sc = {"declared": d, "cols": c, "rows": r, "wrap": True, "per_line": per, "wrap_hyphen": g.random() < 0.2}
             # make sure physical lines do not all carry the same number of values
             if c - 1 <= per and c - 1 == 1:
                 sc["cols"] = sc["declared"] = c + 1
@@ -298,6 +303,12 @@ class C07(Prop):
                             j, i, cell, "an empty cell" if (i, j) in empty else tag(i, j), d, c, r, sc["engine"]))
                         return res
                 continue
+            if j == 0 and sc.get("wrap_hyphen") and sc["wrap"]:
+                want_t = ["2018-01-%02d" % (i % 28 + 1) for i in range(r)]
+                if [str(x) for x in a.tolist()] != want_t:
+                    res.violate("C07.binding", "date index of the wrapped file came back as %r, expected %r" % (a.tolist()[:4], want_t[:4]))
+                    return res
+                continue
             if j == 0 and sc.get("text_index") and c > 0:
                 want_t = ["T%05d" % tag(i, 0) for i in range(r)]
                 if [str(x) for x in a.tolist()] != want_t:
@@ -311,7 +322,7 @@ class C07(Prop):
                     return res
                 continue
             if j < c:
-                sign = -1.0 if ((sc.get("runon") and j > 0) or j == sc.get("negcol")) else 1.0
+                sign = -1.0 if ((sc.get("runon") and j > 0) or j == sc.get("negcol") or (sc.get("wrap_hyphen") and sc["wrap"] and j > 0)) else 1.0
                 off = 10000 if sc.get("runon") else 0
                 want = np.array([sign * (off + tag(i, j)) for i in range(r)], dtype=float)
                 if a.dtype.kind != "f" or not np.array_equal(a, want):
